@@ -15,6 +15,7 @@ import (
 	"github.com/ollama/ollama/kvcache"
 	"github.com/ollama/ollama/ml"
 	"github.com/ollama/ollama/model"
+	"github.com/ollama/ollama/runner/llamarunner"
 	"github.com/ollama/ollama/runner/ollamarunner"
 	"verifharness/hx"
 )
@@ -337,12 +338,70 @@ func (logCounter) Handle(_ context.Context, r slog.Record) error {
 func (h logCounter) WithAttrs([]slog.Attr) slog.Handler { return h }
 func (h logCounter) WithGroup(string) slog.Handler      { return h }
 
+func ints(v any) []int {
+	l, _ := v.([]any)
+	out := make([]int, 0, len(l))
+	for _, x := range l {
+		out = append(out, hx.Int(x))
+	}
+	return out
+}
+
+func ints32(l []int) []int32 {
+	out := make([]int32, 0, len(l))
+	for _, x := range l {
+		out = append(out, int32(x))
+	}
+	return out
+}
+
 func main() {
 	slog.SetDefault(slog.New(logCounter{}))
 	hx.Loop(func(c map[string]any) any {
 		switch c["op"] {
 		case "hist":
 			return runHist(c)
+		case "discard": // ShiftDiscard of both runners
+			n, l, k := hx.Int(c["numctx"]), hx.Int(c["len"]), hx.Int(c["keep"])
+			return map[string]any{"ollama": ollamarunner.VerifShiftDiscard07(int32(n), int32(l), int32(k)), "llama": llamarunner.VerifShiftDiscard07(n, l, k)}
+		case "prefix":
+			a, b := ints(c["a"]), ints(c["b"])
+			return map[string]any{"ollama": ollamarunner.VerifCommonPrefix07(ints32(a), ints32(b)), "llama": llamarunner.VerifCommonPrefix07(a, b)}
+		case "find": // slot choice on a hand-made InputCache without KV cache, both runners
+			var slots [][]int
+			var inuse []bool
+			var age []int
+			for _, x := range c["slots"].([]any) {
+				m := x.(map[string]any)
+				slots = append(slots, ints(m["inputs"]))
+				inuse = append(inuse, m["inuse"].(bool))
+				age = append(age, hx.Int(m["age"]))
+			}
+			multi, _ := c["multi"].(bool)
+			prompt := ints(c["prompt"])
+			out := map[string]any{}
+			{
+				var s32 [][]int32
+				for _, r := range slots {
+					s32 = append(s32, ints32(r))
+				}
+				ic := ollamarunner.VerifPureCache(8, multi, s32, inuse, age)
+				slot, np, after, err := ic.VerifFind(ints32(prompt))
+				o := map[string]any{"slot": slot, "numpast": np, "after": after}
+				if err != nil {
+					o["err"] = err.Error()
+				}
+				out["ollama"] = o
+			}
+			{
+				slot, np, after, err := llamarunner.VerifFind07(8, multi, slots, inuse, age, prompt)
+				o := map[string]any{"slot": slot, "numpast": np, "after": after}
+				if err != nil {
+					o["err"] = err.Error()
+				}
+				out["llama"] = o
+			}
+			return out
 		}
 		return map[string]any{"harness_error": "unknown op"}
 	})
